@@ -120,6 +120,8 @@ def monitor(rep, idx, c):
             like_ok = prev.ctor[1] == ('attr', ('name', 'Signal'), 'like') or prev.ctor[1] == ('name', 'Signal')
             rep.check(like_ok and (init is None or init == ('const', 0)), "C13.1", site, "i_r starts low",
                       f"{prev.name} is created as {ir.show(prev.ctor)}", nontrivial=False)
+            if prev.ctor[1] == ('attr', ('name', 'Signal'), 'like') and init is None:
+                like_template_init(rep, idx, c, prev)
         else:
             # created in the constructor: self.<table>[...] = Signal.like(<source>.i, ...) with no non-zero init
             attr = P
@@ -188,6 +190,38 @@ def monitor(rep, idx, c):
         return
     single_unconditional(rep, "C13.4", c, "src.i == (enable & pending).any()", c.parse("self.src.i"), "comb",
                          "(self.enable & self.pending).any()")
+
+
+def like_template_init(rep, idx, c, prev):
+    """Signal.like(<source>.<member>) copies the member's initial value: the member of Source.Signature it is modelled on must
+    be declared without a non-zero init, in every trigger mode, or the previous-sample register does not start low."""
+    site = c.fi.site
+    tmpl = c.norm(prev.ctor[2][0]) if prev.ctor[2] else None
+    if tmpl is None or tmpl[0] != 'attr':
+        rep.unk("C13.1", site, "i_r starts low (the signal it is modelled on has no initial value)", f"Signal.like template {ir.show(tmpl) if tmpl else None}")
+        return
+    member = tmpl[2]
+    sig = idx.find_class("event:Source.Signature")
+    init_fn = sig.method("__init__") if sig is not None else None
+    decls = []
+    if init_fn is not None:
+        for n in ast.walk(init_fn.node):
+            if isinstance(n, ast.Dict):
+                for k, v in zip(n.keys, n.values):
+                    if isinstance(k, ast.Constant) and k.value == member and isinstance(v, ast.Call):
+                        decls.append(v)
+            if isinstance(n, ast.Assign) and len(n.targets) == 1 and isinstance(n.targets[0], ast.Subscript) and \
+                    isinstance(n.targets[0].slice, ast.Constant) and n.targets[0].slice.value == member and isinstance(n.value, ast.Call):
+                decls.append(n.value)
+    if not decls:
+        rep.unk("C13.1", site, "i_r starts low (the signal it is modelled on has no initial value)",
+                f"declaration of member `{member}` of Source.Signature not found")
+        return
+    for v in decls:
+        bad = [k for k in v.keywords if k.arg in ("init", "reset") and not (isinstance(k.value, ast.Constant) and k.value.value in (0, False))]
+        rep.check(not bad, "C13.1", init_fn.site, "i_r starts low (the signal it is modelled on has no initial value)",
+                  f"member `{member}` is declared as {ast.unparse(v)[:90]}: Signal.like({ir.show(tmpl)}) in Monitor.elaborate copies that initial value "
+                  "into the previous-sample register, so an edge source starts as if its line had been high before reset")
 
 
 def or_over_sources(rep, c, L, k):
